@@ -104,7 +104,11 @@ class PyFileWriter(AbstractWriter):
 
             except Exception:
                 if pyfile and os.access(pyfile, os.F_OK):
-                    os.unlink(pyfile)
+                    try:
+                        os.unlink(pyfile)
+
+                    except OSError:
+                        pass
 
                 raise error.PySmiWriterError('failure compiling %s: %s' % (pyfile, sys.exc_info()[1]), file=mibname, writer=self)
 
